@@ -185,6 +185,9 @@ class FixedMarginBusiness(Sector):
         self.OutputName = output_name
         self.AddVariable('SUP_' + output_name, 'Supply of goods', '')
         self.AddVariable('PROF', 'Profits', 'SUP_GOOD - DEM_' + labour_input_name)
+        # Declare the demand for labour now (the equation is filled in by _GenerateEquations), so
+        # that the labour market finds it whatever the order in which sectors were created.
+        self.AddVariable('DEM_' + labour_input_name, 'Demand for labour', '')
 
     def _GenerateEquations(self):
         # self.AddVariable('SUP_GOOD', 'Supply of goods', '<TO BE DETERMINED>')
